@@ -14,8 +14,7 @@ package calc_test
 //        their tier lists, active policies and profiles with all rules, IP set members) must be
 //        equal.
 //  (iii) "never more open than absence" is implied by (ii): the outputs are *equal* to the
-//        outputs under absence.  In addition the C03 reference model is evaluated on A against
-//        the valid datastore content (invalid policies/profiles/endpoints = absent).
+//        outputs under absence (whether the outputs under absence are right is C03's subject).
 //
 // Invalid variants are exactly values that calc.ValidationFilter rejects on the unchanged tree
 // (typha/pkg/validator/v1 for backend model values, libcalico-go/lib/validator/v3 for the v3
@@ -248,25 +247,42 @@ type c05Run struct {
 	t         *rapid.T
 	h         *c03Hist
 	a, b      *c03Graph
-	stats     *c03CheckStats
+	rec       *ev.Recorder
 	checks    int
 	absentRef bool
+	knownHit  bool
+	truncated bool
+	// cutAtStalePending: the C03 finding "stale pending policy" is present in the tree under
+	// test (probed once per test function) or registered as known: cases are cut short at its
+	// precondition because from there on the outputs of A and B depend on map iteration order.
+	cutAtStalePending bool
 }
 
-func c05NewRun(t *rapid.T) *c05Run {
+func c05NewRun(t *rapid.T, rec *ev.Recorder, cut bool) *c05Run {
 	h := c03NewHist(t)
 	h.invalidGen = c05InvalidValue
-	return &c05Run{t: t, h: h, a: c03NewGraph(), b: c03NewGraph(), stats: &c03CheckStats{}}
+	return &c05Run{t: t, h: h, a: c03NewGraph(), b: c03NewGraph(), rec: rec, cutAtStalePending: cut}
+}
+
+// c05CutAtStalePending decides once per test function whether cases are cut at the precondition
+// of the C03 finding, and records the decision in the evidence.
+func c05CutAtStalePending(rec *ev.Recorder) bool {
+	_, present := c03ProbeStalePending()
+	rec.Extra("c03_stale_pending_policy_defect_present_in_tree", present)
+	return present || ev.Known(c03SigStalePending)
 }
 
 func (r *c05Run) batch(n int, weights []string, pInvalid int) {
+	if r.truncated {
+		return
+	}
 	as, bs := r.h.genBatch(n, weights, pInvalid)
 	r.a.send(as)
 	r.b.send(bs)
 }
 
 func (r *c05Run) inSync() {
-	if !r.a.inSync {
+	if !r.a.inSync && !r.truncated {
 		r.a.setInSync()
 		r.b.setInSync()
 		r.h.log = append(r.h.log, "in-sync")
@@ -275,6 +291,19 @@ func (r *c05Run) inSync() {
 }
 
 func (r *c05Run) flushAndCheck() {
+	if r.truncated {
+		return
+	}
+	// The known C03 finding makes the output depend on map iteration order inside the policy
+	// resolver, so A and B may legitimately differ once its precondition occurred.
+	if r.h.stalePendingAtFlush(r.a.inSync) {
+		r.knownHit = true
+		if r.cutAtStalePending {
+			r.rec.Excluded(c03SigStalePending)
+			r.truncated = true
+			return
+		}
+	}
 	r.a.flush()
 	r.b.flush()
 	r.h.log = append(r.h.log, "flush")
@@ -298,15 +327,13 @@ func (r *c05Run) flushAndCheck() {
 	if absent {
 		r.absentRef = true
 	}
-	if msg := c03CheckFold(r.t, r.h.valid, r.a.fold, r.stats); msg != "" {
-		fail("iii: endpoint/policy state differs from the reference model with invalid resources absent", msg)
-	}
 }
 
-func (r *c05Run) finish(rec *ev.Recorder) {
+func (r *c05Run) finish() {
+	rec := r.rec
 	classes := []string{}
-	for c := range r.stats.classes {
-		classes = append(classes, c)
+	if r.knownHit {
+		classes = append(classes, "known:"+c03SigStalePending)
 	}
 	if r.absentRef {
 		classes = append(classes, "referenced-profile-without-valid-rules")
@@ -350,11 +377,13 @@ func TestVerifC05FailClosedHistories(t *testing.T) {
 	rec := ev.New("C05", "histories",
 		"rapid-generated histories as in C03 (same universe) with profile-rules/profile/policy/endpoint sets replaced by an invalid variant with probability 0.3, run on two graphs (A: as generated, B: invalid replaced by absence) with identical batch/flush/in-sync schedule; compared after every flush. Non-trivial = at a checked flush a local endpoint referenced a profile without valid rules, or an invalid value was delivered for a key holding a valid value. Distinct = op-kind sequence + classes (incl. the invalid variants used)",
 		"invalid variants are values rejected by calc.ValidationFilter on the unchanged tree (v1 backend validator, v3 validator for Profile resources, filter's own workload endpoint checks); tiers and rule actions have no validation and are not varied",
-		"(iii) 'never more open than absence' is established through equality with the absence run (ii) plus the C03 reference model on the valid content",
+		"(iii) 'never more open than absence' is established through equality with the absence run (ii)",
+		"while the C03 finding C03-stale-pending-policy is present in the tree (probed at start) a case is cut short at the first flush where its precondition holds: from there on the resolver's output depends on map iteration order, so A and B could differ for reasons unrelated to validation",
 		"selector semantics trusted from libcalico-go/lib/selector")
 	defer rec.Write()
+	cut := c05CutAtStalePending(rec)
 	rapid.Check(t, func(t *rapid.T) {
-		r := c05NewRun(t)
+		r := c05NewRun(t, rec, cut)
 		nSteps := rapid.IntRange(1, ev.Scale(12, 26)).Draw(t, "numSteps")
 		syncAt := rapid.IntRange(-3, nSteps).Draw(t, "inSyncAfterStep")
 		if syncAt <= 0 {
@@ -381,7 +410,7 @@ func TestVerifC05FailClosedHistories(t *testing.T) {
 		}
 		r.inSync()
 		r.flushAndCheck()
-		r.finish(rec)
+		r.finish()
 	})
 }
 
@@ -394,8 +423,9 @@ func TestVerifC05ReferenceLifecycle(t *testing.T) {
 		"context (local workload+host endpoint referencing prof1/prof2, tiers, a matching policy) then 2-6 transitions of one target key (profile rules, profile resource, policy or endpoint) among valid / invalid variant / deleted, flush and compare after each transition; non-trivial as in the histories unit (true by construction for most cases)",
 		"same assumptions as the histories unit")
 	defer rec.Write()
+	cut := c05CutAtStalePending(rec)
 	rapid.Check(t, func(t *rapid.T) {
-		r := c05NewRun(t)
+		r := c05NewRun(t, rec, cut)
 		if rapid.IntRange(0, 3).Draw(t, "inSyncFirst") > 0 {
 			r.inSync()
 		}
@@ -420,6 +450,6 @@ func TestVerifC05ReferenceLifecycle(t *testing.T) {
 		}
 		r.inSync()
 		r.flushAndCheck()
-		r.finish(rec)
+		r.finish()
 	})
 }
